@@ -349,7 +349,6 @@ example : (∀ r ∈ [['#', ' '], ['.', '#']], rowLen r = 2) ∧
 -- [V] `Debug` of `from_pattern(pattern)` is the pattern again (rows padded to 64 columns, trailing empty rows dropped, lower-case hex digits printed upper-case): carried by correspondence + oracle only (streams mock.pattern: `dbg=`, oracle class debug-rows)
 -- [V] `from_pattern` panics on over-wide / over-tall / ragged patterns and unknown characters (which assertion fires first): the model `fromPattern` transcribes the four checks arm for arm and is compared on every `mock.pattern` op (`err=`); no separate theorem
 -- [V] the framing text of `{:?}` ("MockDisplay[", "(n empty rows skipped)", "]"): compared through the hash `dh=` of the complete text on every `mock.hist` op
--- [V] `swap_xy`, `map` (not part of the property text): compared on every accepted `mock.pattern` op (`sw=`, `mp=`)
 -- [V] colours outside a type's colour set (`Gray8` values that are not multiples of 0x11, RGB colours other than the eight named ones) print as '?', which `from_pattern` rejects: observed by the oracle (class debug-unrepresentable-not-rejected), not a theorem
 -- [V] `get_pixel` for arguments outside the 64 x 64 cells is not claimed; what the code does there is recorded below (`get_pixel_outside_*`) and compared on the `mock.get` stream
 
